@@ -347,7 +347,8 @@ class MinFlowDecomp(pathmodel.AbstractPathModelDAG): # Note that we inherit from
                 if self.G.in_degree(v) == 0:
                     for _, _, data in self.G.out_edges(v, data=True):
                         if self.flow_attr in data:
-                            self._source_flow += data[self.flow_attr]
+                            # (as Python numbers: sums of fixed-width numpy integers wrap around, np.uint8 130 + 131 = 5)
+                            self._source_flow += data[self.flow_attr].item() if hasattr(data[self.flow_attr], "item") else data[self.flow_attr]
             utils.logger.debug(f"{__name__}: source_flow = {self._source_flow}")
             return self._source_flow
         else:
@@ -397,8 +398,11 @@ class MinFlowDecomp(pathmodel.AbstractPathModelDAG): # Note that we inherit from
             for u, v in level_edges[i]:
                 if (u, v) in self.edges_to_ignore or self.flow_attr not in self.G.edges[u, v]:
                     continue
-                level_flow_sum += self.G.edges[u, v][self.flow_attr]
-                level_flow_parts.append(self.G.edges[u, v][self.flow_attr])
+                # (as Python numbers, like the source flow they are compared with)
+                level_flow_value = self.G.edges[u, v][self.flow_attr]
+                level_flow_value = level_flow_value.item() if hasattr(level_flow_value, "item") else level_flow_value
+                level_flow_sum += level_flow_value
+                level_flow_parts.append(level_flow_value)
             
             if level_flow_sum == source_flow and len(level_flow_parts) >= min_constraint_len:
                 # We add the constraint for this level
